@@ -13,7 +13,48 @@ CMS_KINDS = ("linear", "log16", "log8")
 ALL_KINDS = ("linear", "log16", "log8", "hh", "hll")
 
 
+LAYOUTS = os.environ.get("VERIF_LAYOUTS", "1") == "1"
+_LAYOUT_N = [0]
+LAYOUT_COUNTS = {"rebound": 0, "strided": 0, "fortran": 0}
+
+
+def reset_layouts(phase=0):
+    """Called at the start of every case: which of the sketches built during the case get re-assigned arrays depends on the
+    case alone, so a replayed case makes the same choices."""
+    _LAYOUT_N[0] = int(phase) % 16
+
+
+def relayout(sketch, how):
+    """The user re-assigns the documented public array attributes of a (non shared-memory) sketch: to fresh copies ('rebound'),
+    to strided views into larger arrays ('strided') or to Fortran-ordered arrays ('fortran').  Contents are preserved; the
+    library's kernels take arrays of any layout, so everything must go on as before."""
+    kind = kind_of(sketch)
+    for name in ARRAYS.get(kind, ()):
+        a = getattr(sketch, name)
+        if how == "rebound":
+            b = a.copy()
+        elif how == "strided":
+            big = np.zeros(a.shape[:-1] + (2 * a.shape[-1] + 1,), a.dtype)
+            b = big[..., 1::2][..., : a.shape[-1]]
+            b[...] = a
+        else:
+            b = np.asfortranarray(a) if a.ndim > 1 else a.copy()
+        setattr(sketch, name, b)
+    LAYOUT_COUNTS[how] += 1
+    return sketch
+
+
 def make(cfg, shared_memory=False):
+    sketch = _make(cfg, shared_memory)
+    if LAYOUTS and not shared_memory:
+        _LAYOUT_N[0] += 1
+        how = {5: "rebound", 9: "strided", 13: "fortran"}.get(_LAYOUT_N[0] % 16)
+        if how:
+            relayout(sketch, how)
+    return sketch
+
+
+def _make(cfg, shared_memory=False):
     s = sk()
     k = cfg["kind"]
     if k == "linear":
@@ -337,6 +378,16 @@ def save_load(sketch, kind, shared_memory=False, via_module=False):
         from pathlib import Path
 
         path = Path(path)  # file names are documented as str | Path
+    cwd = None
+    if _salt(sketch, kind) % 4 == 2:
+        # a relative file name, resolved against the current directory (saved and loaded from inside the directory)
+        import threading
+
+        if threading.current_thread() is threading.main_thread() and threading.active_count() == 1:
+            cwd = os.getcwd()
+            full = str(path)
+            os.chdir(os.path.dirname(full))
+            path = type(path)(os.path.basename(full)) if not isinstance(path, str) else os.path.basename(full)
     try:
         sketch.save(path)
         if _salt(sketch, kind) % 4 == 1:
@@ -360,3 +411,5 @@ def save_load(sketch, kind, shared_memory=False, via_module=False):
             os.unlink(path)
         except OSError:
             pass
+        if cwd is not None:
+            os.chdir(cwd)
